@@ -543,8 +543,14 @@ fn check_relay(case: &RelayCase, st: &mut Stats) -> Result<(), String> {
 pub enum AdmOp {
     /// Identity `id` connects to the node and proves `id`.
     In { id: usize },
-    /// The node dials identity `id`; the peer that answers proves `answer_as`.
-    Out { id: usize, answer_as: usize },
+    /// The node dials identity `id`; the peer that answers proves `answer_as`. With `stall` the peer first lets the
+    /// node's handshake frame arrive and looks at the node's outbound pool before it answers anything.
+    Out {
+        id: usize,
+        answer_as: usize,
+        #[serde(default)]
+        stall: bool,
+    },
     /// The peer end of the k-th still open connection is closed.
     Close { k: usize },
 }
@@ -571,7 +577,7 @@ pub fn gen_adm(ch: &mut Choices) -> AdmCase {
             0..=3 => AdmOp::In { id: ch.below(ADM_IDS) },
             4 | 5 => {
                 let id = ch.below(ADM_IDS);
-                AdmOp::Out { id, answer_as: if ch.chance(3, 4) { id } else { ch.below(ADM_IDS) } }
+                AdmOp::Out { id, answer_as: if ch.chance(3, 4) { id } else { ch.below(ADM_IDS) }, stall: ch.chance(1, 3) }
             }
             _ => AdmOp::Close { k: ch.below(4) },
         });
@@ -713,7 +719,7 @@ pub fn check_adm(case: &AdmCase, st: &mut Stats) -> Result<(), String> {
                             (Started::Ended(Ok(())), false) => drop(a),
                         }
                     }
-                    AdmOp::Out { id, answer_as } => {
+                    AdmOp::Out { id, answer_as, stall } => {
                         let before = pool_ids(false);
                         let mut l = hook::TcpListener::bind().await.map_err(|e| format!("INFRA: bind: {e:#}"))?;
                         let addr = l.addr();
@@ -733,7 +739,27 @@ pub fn check_adm(case: &AdmCase, st: &mut Stats) -> Result<(), String> {
                             _ => return Err("INFRA: the node did not dial within 6 s".into()),
                         };
                         let (mut peer, _is_consensus) = NoiseTcp::preface_accept(ctx, tcp).await.map_err(|e| format!("INFRA: preface: {e:?}"))?;
-                        let _hs = if case.consensus {
+                        let _hs = if *stall {
+                            // the node's own handshake frame has arrived: the node is now waiting for the peer's proof, which
+                            // has not been given - the dialled identity must not be listed as connected yet
+                            let theirs = tokio::time::timeout(std::time::Duration::from_secs(6), read_frame(&mut peer)).await;
+                            if !matches!(theirs, Ok(Some(_))) {
+                                return Err("INFRA: the node's handshake frame did not arrive within 6 s".into());
+                            }
+                            st.class("outbound_pool_observed_before_the_peer_answered");
+                            if !before.contains(id) && pool_ids(false).contains(id) {
+                                return Err(format!(
+                                    "step {step} {op:?}: the node dialled identity {id}; its outbound pool lists {id} as connected although the remote end has not sent its handshake yet (nobody has proved possession of that key)"
+                                ));
+                            }
+                            let frame = if case.consensus {
+                                hook::consensus::encode_handshake(vks[*answer_as].sign_msg(node::SessionId(peer.id())), genesis)
+                            } else {
+                                hook::gossip::encode_handshake(nk[*answer_as].sign_msg(node::SessionId(peer.id())), genesis, false)
+                            };
+                            write_frame(&mut peer, &frame, None).await;
+                            Ok(())
+                        } else if case.consensus {
                             hook::consensus::handshake_inbound(ctx, &vks[*answer_as], genesis, &mut peer).await.map(|_| ())
                         } else {
                             let pcfg = gossip_cfg(&nk[*answer_as]);
